@@ -14,7 +14,7 @@ open Conv
 (* Which reader the model mirrors: Cur = the shipped parse.rs, Fix = parse.rs with patches/000N-fix-btor2-*.diff applied
    (Model.parse_*_v, theorems C18_no_crash_fix / C18_accepted_well_typed_fix / C08_rejects_ill_formed_fix).
    Shared by the C08, C09 and C18 handlers. *)
-let code_variant = Cur
+let code_variant = Fix
 
 let big_coqstr (s : string) : char list =
   let r = ref [] in
